@@ -844,8 +844,11 @@ class Array(Tuple):
         self._value = np.empty(len(nodes), dtype=self._dtype)
 
     def update(self):
+        # fill a new array: the previous one may still be held by frozen parents (or by whoever read the value)
+        _value = np.empty(len(self.nodes), dtype=self._dtype)
         for _i, _node in enumerate(self.nodes):
-            self._value[_i] = _node.value
+            _value[_i] = _node.value
+        self._value = _value
 
         self._stale = False
 
